@@ -665,7 +665,7 @@ func verifyLooksAtTheMessage(c *Ctx, rule string) {
 	n := 0
 	for _, rt := range p.ReturnTerms(v) {
 		n++
-		t := rt[0]
+		t := p.XLocal(rt[0], v)
 		for _, a := range t.Alts() {
 			a = a.Strip()
 			ok := a.Op == "call" && a.Fn != nil && a.Fn.Name() == "Verify" && a.Has(func(x *Term) bool { return x.IsParam(v, 1) }) && a.Has(func(x *Term) bool { return x.IsParam(v, 2) })
@@ -693,7 +693,6 @@ func peerListsUnderTopologyLock(c *Ctx, rule string) {
 			continue
 		}
 		fn := fn
-		li := p.Locksets(fn)
 		eachInstr(fn, func(in ssa.Instruction) {
 			cc := callCommon(in)
 			if cc == nil || cc.StaticCallee() == nil || cc.StaticCallee().Signature.Recv() == nil || !namedIs(cc.StaticCallee().Signature.Recv().Type(), "gossip", "PeerList") || len(cc.Args) == 0 {
@@ -705,7 +704,7 @@ func peerListsUnderTopologyLock(c *Ctx, rule string) {
 				return
 			}
 			n++
-			if li.before[in]["gossip.Topology.Mutex"] == 0 {
+			if p.HeldAt(in)["gossip.Topology.Mutex"] == 0 {
 				bad++
 				c.Fail(rule, funcName(fn)+":peer-list:"+cc.StaticCallee().Name(), in.Pos(), "a peer list of the topology is used ("+cc.StaticCallee().Name()+") after the topology mutex was released: PeerList has no lock of its own, so join/leave notifications race with routing (lost peers, torn slices)")
 			}
@@ -797,16 +796,21 @@ func dedupKeyCoversTheBatch(c *Ctx, rule string) {
 	p := c.P
 	wp := p.MustMethod("gossip", "BatchProcessor", "wasProcessed")
 	okEnc := false
-	eachInstr(wp, func(in ssa.Instruction) {
-		cc := callCommon(in)
-		if cc == nil || cc.StaticCallee() == nil || cc.StaticCallee().Name() != "Encode" || len(cc.Args) < 2 {
-			return
+	bi := -1
+	for i, pr := range wp.Params {
+		if namedIs(pr.Type(), "protocol", "BatchSnapshots") {
+			bi = i
 		}
-		a := p.TermOf(cc.Args[1])
-		if a.IsField("Snapshots", isParam(wp, 1)) || a.IsParam(wp, 1) {
+	}
+	r := p.RegionOf(wp, 3)
+	for _, ri := range r.Calls(func(cc *ssa.CallCommon) bool {
+		return cc.StaticCallee() != nil && cc.StaticCallee().Name() == "Encode" && len(cc.Args) >= 2
+	}) {
+		a := r.Term(ri.site, callCommon(ri.in).Args[1])
+		if bi >= 0 && (a.IsField("Snapshots", isParam(wp, bi)) || a.IsParam(wp, bi)) {
 			okEnc = true
 		}
-	})
+	}
 	c.Check(okEnc, rule, funcName(wp)+":key-covers-batch", wp.Pos(), "the looked-up digest is computed from the encoding of all snapshots of the batch", "the digest that identifies a batch is no longer computed from the encoding of its snapshots: a copy altered in a field the key does not cover (digests, version — nobody verifies signatures on this path) is dropped as already processed and never audited")
 }
 
@@ -996,5 +1000,130 @@ func readerHandsOutFreshPairs(c *Ctx, rule string) {
 	}
 	if n == 0 {
 		c.Fail(rule, "readers:fresh-pairs", 0, "no KVPairReader implementation found")
+	}
+}
+
+// ---- round 4 ----------------------------------------------------------------------------------------------------------
+
+// callReceiver: the receiver value of a method call (static or through an interface), or nil.
+func callReceiver(cc *ssa.CallCommon) ssa.Value {
+	if cc.IsInvoke() {
+		return cc.Value
+	}
+	if g := cc.StaticCallee(); g != nil && g.Signature.Recv() != nil && len(cc.Args) > 0 {
+		return cc.Args[0]
+	}
+	return nil
+}
+
+// A read answers from the store: every successful return of a point/range/last read has consulted
+// the underlying database. A shortcut that answers "nothing" from the arguments alone (an "empty
+// interval" test on inclusive bounds, say) makes the two back-ends, and a map, disagree.
+func readsConsultTheStore(c *Ctx, rule string) {
+	p := c.P
+	for _, be := range []struct{ pkg, typ, dbPkg, dbTyp string }{{"storage/rocks", "RocksDBStore", "rocksdb", "DB"}, {"storage/bplus", "BPlusTreeStore", "github.com/google/btree", "BTree"}} {
+		for _, mname := range []string{"Get", "GetRange", "GetLast"} {
+			fn := p.Method(be.pkg, be.typ, mname)
+			if fn == nil {
+				c.Fail(rule, be.typ+"."+mname+":consults-store", 0, "method not found")
+				continue
+			}
+			r := p.RegionOf(fn, 2)
+			be := be
+			hit := func(in ssa.Instruction) bool {
+				cc := callCommon(in)
+				if cc == nil {
+					return false
+				}
+				rv := callReceiver(cc)
+				if rv == nil {
+					return false
+				}
+				n, isN := namedOf(rv.Type())
+				return isN && n.Obj().Name() == be.dbTyp && n.Obj().Pkg() != nil && strings.HasSuffix(n.Obj().Pkg().Path(), be.dbPkg)
+			}
+			esc := r.EscapesWithoutDeep(hit, mustOpts{skipErrEdges: true})
+			if esc != nil {
+				c.Fail(rule, be.typ+"."+mname+":consults-store", esc.Pos(), "this return is reached without having asked the database: the answer is decided from the arguments alone (bounds are inclusive, an empty-looking interval can hold a key)")
+			} else {
+				c.Ok(rule, be.typ+"."+mname+":consults-store", fn.Pos(), "every return follows a database access")
+			}
+		}
+	}
+}
+
+// The in-memory back-end applies a batch with no way back: it must not leave the loop early, or a
+// failing batch is half visible.
+func memoryMutateIsAllOrNothing(c *Ctx, rule string) {
+	p := c.P
+	mut := p.MustMethod("storage/bplus", "BPlusTreeStore", "Mutate")
+	r := p.RegionOf(mut, 2)
+	ins := r.Calls(func(cc *ssa.CallCommon) bool {
+		g := cc.StaticCallee()
+		return g != nil && g.Name() == "ReplaceOrInsert"
+	})
+	if len(ins) == 0 {
+		c.Fail(rule, funcName(mut)+":all-or-nothing", mut.Pos(), "no insertion found")
+		return
+	}
+	bad := 0
+	for _, ri := range ins {
+		// an error reported after an insertion has already been made
+		failing := func(in ssa.Instruction) bool {
+			ret, ok := in.(*ssa.Return)
+			if !ok || len(ret.Results) == 0 {
+				return false
+			}
+			t := p.TermOf(RetVal(ret, len(ret.Results)-1))
+			return !(t.Op == "const" && t.Name == "nil")
+		}
+		var at ssa.Instruction
+		if reachesWithout(ri.in, func(in ssa.Instruction) bool {
+			if failing(in) {
+				at = in
+				return true
+			}
+			return false
+		}, func(ssa.Instruction) bool { return false }, nil) {
+			bad++
+			c.Fail(rule, funcName(mut)+":all-or-nothing", at.Pos(), "Mutate can fail after it has already inserted part of the batch: the mutations before the failing one stay visible, the rest are dropped")
+		}
+	}
+	if bad == 0 {
+		c.Ok(rule, funcName(mut)+":all-or-nothing", mut.Pos(), "no exit inside the applying loop")
+	}
+}
+
+// Iterators of the store are used with the default read options and rely on total-order seeks; a
+// prefix extractor on a column family makes Seek/SeekForPrev skip files whose filter lacks the
+// target's prefix (GetLast, GetRange between stored keys).
+func noPrefixExtractor(c *Ctx, rule string) {
+	p := c.P
+	has := false
+	if nt := p.NamedType("rocksdb", "Options"); nt != nil {
+		for i := 0; i < nt.NumMethods(); i++ {
+			if nt.Method(i).Name() == "SetPrefixExtractor" {
+				has = true
+			}
+		}
+	}
+	c.Control("rocksdb.Options.SetPrefixExtractor is part of the wrapper's API", has)
+	bad := 0
+	for _, fn := range p.ModFuncs {
+		if fn.Pkg == nil || !p.Production(fn) || strings.HasSuffix(fn.Pkg.Pkg.Path(), "/rocksdb") {
+			continue
+		}
+		fn := fn
+		eachInstr(fn, func(in ssa.Instruction) {
+			cc := callCommon(in)
+			if cc == nil || cc.StaticCallee() == nil || cc.StaticCallee().Name() != "SetPrefixExtractor" {
+				return
+			}
+			bad++
+			c.Fail(rule, funcName(fn)+":prefix-extractor", in.Pos(), "a prefix extractor is installed on a column family whose iterators seek in total order with default read options: seeks to a key whose prefix is in no filter skip the file (GetLast, GetRange)")
+		})
+	}
+	if bad == 0 {
+		c.Ok(rule, "storage:no-prefix-extractor", 0, "no column family has a prefix extractor")
 	}
 }
